@@ -56,6 +56,9 @@ type World struct {
 	CheckJobs bool
 	// NoJobs makes RunJob a no-op that still takes its time slot (twin runs)
 	NoJobs bool
+	// PublishFaultAt, when > 0, makes the next Publish run its first attempt
+	// with that statement failing (one shot)
+	PublishFaultAt int
 	// StreamExtends lets stream sessions also extend deadlines (per ack id, in
 	// the same request as their nacks)
 	StreamExtends bool
@@ -503,7 +506,30 @@ func (w *World) Publish(topic string, msgs []PubMsg) []*Msg {
 		req.Messages = append(req.Messages, &pubsubpb.PubsubMessage{Data: m.Data, Attributes: m.Attrs, OrderingKey: m.Key})
 	}
 	lo := w.now()
-	resp, err := w.E.Pub.Publish(w.Ctx, req)
+	var resp *pubsubpb.PublishResponse
+	var err error
+	if k := w.PublishFaultAt; k > 0 {
+		// first attempt while the k-th statement of the call fails; an OK answer
+		// counts like any other, after an error the publisher retries
+		w.PublishFaultAt = 0
+		actor := fmt.Sprintf("faulty-publish-%d", w.opn())
+		seam.C.SetFault(&seam.Fault{Actor: actor, K: k, Mode: seam.FaultError})
+		resp, err = w.E.Pub.Publish(w.E.Actor(actor), req)
+		if seam.C.FaultHits() > 0 {
+			w.stat("publish_faults_hit", 1)
+			if err == nil {
+				w.stat("publish_ok_although_a_statement_failed", 1)
+			}
+		}
+		seam.C.SetFault(nil)
+		if err != nil {
+			if _, live := w.Topics[topic]; live {
+				resp, err = w.E.Pub.Publish(w.Ctx, req)
+			}
+		}
+	} else {
+		resp, err = w.E.Pub.Publish(w.Ctx, req)
+	}
 	hi := w.now()
 	keys := make([]string, len(msgs))
 	for i, m := range msgs {
